@@ -1,5 +1,5 @@
 PROP = {
-    "thm": ["Umya.Thm.C08", "Umya.Thm.C08Lex"],
+    "thm": ["Umya.Thm.C08", "Umya.Thm.C08Lex", "Umya.Thm.C08LexWF"],
     "harness": "c08",
     "level": "proof",
     "stateful": False,
@@ -15,7 +15,7 @@ PROP = {
                   "(C08_defined_names_follow, C08_defined_names_follow_remove).",
     "level_note": "Trusted: Lean kernel + 3 standard axioms; the hand model's faithfulness as exercised by the correspondence stream; "
                   "the C17 coordinate codecs (proved there); the harness' independent AST shifter (fx.rs).",
-    "expect_theorems": ["C08_kernels_match_source", "C08_terminates", "C08_nonrefs_untouched", "C08_insert", "C08_insert_tokens_partial", "C08_remove", "C08_remove_partial", "C08_defined_names_follow", "C08_defined_names_follow_remove", "C08_insert_text", "C08_remove_text"],
+    "expect_theorems": ["C08_kernels_match_source", "C08_terminates", "C08_nonrefs_untouched", "C08_insert", "C08_insert_tokens_partial", "C08_remove", "C08_remove_partial", "C08_defined_names_follow", "C08_defined_names_follow_remove", "C08_insert_text", "C08_remove_text", "C08_insert_text_wf", "C08_remove_text_wf"],
     "rule": "formulas from the AST grammar of the property (as C09; sheet qualifiers: none, Sheet1, 'Sheet1', 'My Sheet', 'It''s', a non-existent "
             "sheet, external-workbook prefixes) placed on any of the three sheets {Sheet1, My Sheet, It's}; histories of 4 edits "
             "(insert/remove x row/column, position 1..14 or next to the grid limit, 1..4 lines, on any sheet; references up to XFD / 1048576, so that inserts push cells off the grid (#REF!) and cut ranges off at the edge: tag grid-limit), applied at workbook level "
@@ -29,6 +29,6 @@ PROP = {
     ],
     "assumptions": ["ranges are written normalised (first corner <= second corner), as Excel writes them",
                     "sheet names are compared exactly (case-sensitive), as the implementation does"],
-    "partial_clauses": ["C08_insert: proved at reference level at full strength (all shapes, locks, qualifiers, positions, counts n != 0 with no bound; a cell / range start pushed beyond XFD/1048576 becomes #REF!, a range end is cut off at the edge; fix fae7c2b, before it the statement was refuted by XFD1 + insert column at A -> XFE1); whole-formula form for token lists (C08_insert_tokens_partial, no grid hypothesis) and for whole texts: editFormula insert (print e) = print (shiftInsert e) for every e with LexOk e and RefsOk e (C08_insert_text; hypotheses as in C09's partial_clauses: no intersection / array constant / structured reference, leaf texts of ordinary characters, names inert; the share of generated formulas with LexOk is counted per run: tag.lexok / tag.lexok-not); NOT proved = the same for expressions with intersections, array constants, structured references or optional blanks - correspondence check + harness oracle only", "C08_remove: proved at reference level at full strength (all shapes, locks, qualifiers, bands; #REF! and clamping); whole-formula form for token lists (C08_remove_partial) and for whole texts: editFormula remove (print e) = print (shiftRemove e) for every e with LexOk e and RefsOk e (C08_remove_text; 1 <= at, n != 0, at+n within u32); NOT proved = the same for expressions with intersections, array constants, structured references or optional blanks - correspondence check + harness oracle only", "defined names: proved for every workbook (workbook-level names and names stored on any sheet, any number of areas) - insert: every address of the edited sheet is the shifted one, every other is unchanged (hypothesis: no u32 overflow; defined names shift through structs::Range, which has NO grid limit: a name pushed beyond XFD/1048576 keeps growing - C07-grid-overflow territory, not generated for names); remove: surviving addresses are shifted / clamped as Spec.remAxis, a name all of whose areas were deleted becomes #REF! (hypotheses: 1 <= at, at+n <= u32 max, ranges have a start part wherever they have an end part); NOT as the property wants: of a name with several areas, one deleted area is dropped from the list instead of becoming #REF! (stated in the theorem, not generated by the harness); the printed text of an address (quoting of the sheet name) is C17/C06 territory; chart series addresses: not reached", "sheet-level fan-out (which cells' formulas are visited, CellFormula text_view) is exercised by the harness through the public API, not modelled beyond editFormula"],
+    "partial_clauses": ["C08_insert: proved at reference level at full strength (all shapes, locks, qualifiers, positions, counts n != 0 with no bound; a cell / range start pushed beyond XFD/1048576 becomes #REF!, a range end is cut off at the edge; fix fae7c2b, before it the statement was refuted by XFD1 + insert column at A -> XFE1); whole-formula form for token lists (C08_insert_tokens_partial, no grid hypothesis) and for whole texts: editFormula insert (print e) = print (shiftInsert e) for every e with LexOk e and RefsOk e (C08_insert_text; hypotheses as in C09's partial_clauses: no intersection / array constant / structured reference, leaf texts of ordinary characters, names inert; C08_insert_text_wf = the same with LexOk' e: references well-formed, the former hypothesis 'a reference text is not f64 / TRUE / FALSE' is proved from well-formedness (isRangeText_of_WF), no longer assumed; the share of generated formulas with LexOk is counted per run: tag.lexok / tag.lexok-not); NOT proved = the same for expressions with intersections, array constants, structured references or optional blanks - correspondence check + harness oracle only", "C08_remove: proved at reference level at full strength (all shapes, locks, qualifiers, bands; #REF! and clamping); whole-formula form for token lists (C08_remove_partial) and for whole texts: editFormula remove (print e) = print (shiftRemove e) for every e with LexOk e and RefsOk e (C08_remove_text; 1 <= at, n != 0, at+n within u32; C08_remove_text_wf = the same with LexOk' e, see C08_insert); NOT proved = the same for expressions with intersections, array constants, structured references or optional blanks - correspondence check + harness oracle only", "defined names: proved for every workbook (workbook-level names and names stored on any sheet, any number of areas) - insert: every address of the edited sheet is the shifted one, every other is unchanged (hypothesis: no u32 overflow; defined names shift through structs::Range, which has NO grid limit: a name pushed beyond XFD/1048576 keeps growing - C07-grid-overflow territory, not generated for names); remove: surviving addresses are shifted / clamped as Spec.remAxis, a name all of whose areas were deleted becomes #REF! (hypotheses: 1 <= at, at+n <= u32 max, ranges have a start part wherever they have an end part); NOT as the property wants: of a name with several areas, one deleted area is dropped from the list instead of becoming #REF! (stated in the theorem, not generated by the harness); the printed text of an address (quoting of the sheet name) is C17/C06 territory; chart series addresses: not reached", "sheet-level fan-out (which cells' formulas are visited, CellFormula text_view) is exercised by the harness through the public API, not modelled beyond editFormula"],
     "technique": "Lean 4 proof on an executable model + differential correspondence on every run",
 }
